@@ -48,7 +48,7 @@ def swizzleOpnd (target : List Nat) (o : Opnd) : Except String Opnd := do
 def toCur (o : Opnd) : Cur Int := ⟨o.ids, o.t⟩
 
 def styleOf : String → Except String Style
-  | "and" => pure .tf | "tf" => pure .tf | "lf" => pure .lf | "lff" => pure .lff
+  | "and" => pure .tf | "tf" => pure .tf | "andr" => pure .tfr | "andh" => pure .tfr | "lf" => pure .lf | "lff" => pure .lff
   | s => throw s!"C06: unknown style {s}"
 
 /-- all assignments of `vars` over `U` (other variables 0) -/
@@ -126,8 +126,10 @@ def handleC06 (j : Json) : Except String Verdict := do
     (if pc.any (· == 2) then ["coiter2"] else []) ++ (if pc.any (· ≥ 3) then ["coiter3"] else []) ++
     (if zr.isEmpty then ["scalar-out"] else ["populate"]) ++
     (if tiles.isEmpty then [] else ["tiled"]) ++
+    (match (j.getObjVal? "declared") with | .ok (Json.bool false) => ["shape-estimated"] | _ => []) ++
+    (if pc.any (· ≥ 3) && style == .tfr then ["lazy-right-operand"] else []) ++
     (if tiles.any (fun t => out.contains t.1) then ["tiled-out"] else []) ++
-    [match style with | .tf => "style-tf" | .lf => "style-lf" | .lff => "style-lff"] ++
+    [match style with | .tf => "style-tf" | .tfr => "style-tfr" | .lf => "style-lf" | .lff => "style-lff"] ++
     (if orig.any (fun o => (content (0 : Int) o.ids.length o.t).isEmpty) then ["empty-operand"] else []) ++
     (if orig.any (fun o => hasExplicitZero o.ids.length o.t) then ["explicit-zero"] else []) ++
     (if orig.any (fun o => hasEmptySub o.ids.length o.t) then ["empty-subfiber"] else []) ++
